@@ -1,12 +1,13 @@
 (* C13/Properties.v — the property theorems only.  Each is closed by [exact]/[apply] of a lemma from
    Proofs.v (or by computation for witnesses) and followed by Print Assumptions.
 
-   /repo HEAD is the variant [Repaired]: all recorded findings are fixed (persist-before-swap 1761ed1,
-   atomic Set 61c97e1, daemon restore after a failed reload e792c74).  The model keeps one [variant] flag per
-   former defect only so that the [_refuted] theorems at the end can exhibit, as historical witnesses, what
-   the tree did before each fix; the correspondence check compares /repo with [Repaired] alone.
-   [fixed var] = the first two are repaired; the theorems are stated for every such variant (hence for
-   HEAD), the daemon clause additionally under [v_frr_restore var = true \/ f_reload f <> 2].
+   /repo HEAD is the variant [Head]: the four findings recorded earlier are fixed (1761ed1 x2, 61c97e1,
+   e792c74); two are open and have fix patches: a failing RESTORING reload is only logged
+   (fixes/C13_report_restore), and ApplyLoadedConfig publishes running before anything is validated and does
+   not put it back when the start-up fails (fixes/C13_boot_atomic).  [Repaired] has both repaired.
+   [fixed var] = persist-before-swap and atomic Set are repaired; the theorems are stated for every such
+   variant (hence for HEAD and for Repaired); clauses that an open finding breaks carry the flag as a hypothesis
+   and have a [_refuted] witness for [Head].
    "Reachable" means: reachable from an initial state by a history of northbound operations
    ([forallb plain ops]: Create, Close, Delete, Set, Commit, Rollback-to-version, time).  LoadConfig and the
    start-up path (ApplyLoadedConfig) replace the whole candidate / alias it with running by design; they
@@ -14,8 +15,8 @@
    (C13_atomic, C13_commit_validates, C13_create_granted, the call-stream theorems) cover them. *)
 From OV Require Import Common.Base C13.Model C13.Proofs.
 
-Theorem C13_head_is_fixed : fixed Repaired /\ v_frr_restore Repaired = true.
-Proof. split; [apply fixed_repaired | reflexivity]. Qed.
+Theorem C13_head_is_fixed : fixed Head /\ v_frr_restore Head = true /\ fixed Repaired.
+Proof. split; [apply fixed_head | split; [reflexivity | apply fixed_repaired]]. Qed.
 Print Assumptions C13_head_is_fixed.
 
 (* reachable states, from any initial running configuration (running and startup one object or two), under
@@ -35,14 +36,17 @@ Print Assumptions C13_reachable_invariant.
    version list exactly as they were; apart from the daemon field the state is [touch_state (expire st) id]
    (idle expiry + the session's activity stamp); the recorded Rollback calls are exactly the successful
    Apply calls in reverse order; and the routing daemon is either untouched or, when a reload had been
-   attempted, back on the running configuration — the last clause under the hypothesis that excludes the
-   known finding (reload failed after changing the daemon and the variant does not restore). *)
+   attempted, back on the running configuration, OR the restoring reload failed as well ([f_restore]: the
+   daemon is down) — then the daemon may still run the candidate, and in the variants with
+   [v_report_restore] the returned error says so ([RFrrReloadU]/[RStartupSaveU]); on HEAD it is only logged
+   (open finding, [C13_restore_unreported_refuted]). *)
 Theorem C13_atomic :
   forall var reg g st id f st' r evs, fixed var ->
   do_commit var reg g st id f = (st', r, evs) -> r <> ROk ->
   (exists d, st' = set_frr (touch_state (expire st) id) d) /\ persisted st' = persisted st /\
   (v_frr_restore var = true \/ f_reload f <> 2%nat ->
-     frr st' = frr st \/ (In EFrrReload evs /\ frr st' = Some (running st))) /\
+     (frr st' = frr st \/ (In EFrrReload evs /\ frr st' = Some (running st))) \/
+     (f_restore f = true /\ (v_report_restore var = true -> r = RFrrReloadU \/ r = RStartupSaveU))) /\
   rolled evs = rev (applied_ok evs).
 Proof. exact atomic. Qed.
 Print Assumptions C13_atomic.
@@ -51,7 +55,7 @@ Print Assumptions C13_atomic.
 Theorem C13_atomic_any_variant :
   forall var reg g st id f st' r evs,
   do_commit var reg g st id f = (st', r, evs) ->
-  r <> ROk -> r <> RStartupSave -> r <> RVersionSave -> r <> RFrrReload ->
+  r <> ROk -> r <> RStartupSave -> r <> RVersionSave -> r <> RFrrReload -> r <> RFrrReloadU -> r <> RStartupSaveU ->
   st' = touch_state (expire st) id /\ rolled evs = rev (applied_ok evs).
 Proof. exact commit_early_failure. Qed.
 Print Assumptions C13_atomic_any_variant.
@@ -166,6 +170,23 @@ Theorem C13_commit_validates :
 Proof. exact commit_validates. Qed.
 Print Assumptions C13_commit_validates.
 
+(* START-UP.  In the variants with [v_boot_atomic] (fixes/C13_boot_atomic), from ANY state: a start-up
+   (LoadStartupConfig + ApplyLoadedConfig) that does not succeed leaves running — contents and object — what it
+   was, and a loaded configuration that fails the pre-commit validation is refused before it is published.
+   On HEAD both are false ([C13_boot_refuted]). *)
+Theorem C13_boot_atomic :
+  forall var reg g st cfg steps em f st' r evs,
+  v_boot_atomic var = true -> do_boot var reg g st cfg steps em f = (st', r, evs) -> is_boot_ok r = false ->
+  running st' = running st /\ running_oid st' = running_oid st.
+Proof. exact boot_atomic. Qed.
+Print Assumptions C13_boot_atomic.
+Theorem C13_boot_validates :
+  forall var reg g st cfg steps em f st' r evs,
+  v_boot_atomic var = true -> do_boot var reg g st cfg steps em f = (st', r, evs) ->
+  precommit_ok g cfg = false -> r = RPrecommit /\ running st' = running st.
+Proof. exact boot_validates. Qed.
+Print Assumptions C13_boot_validates.
+
 (* IDLE EXPIRY (conf.go:817-832).  Every API call first expires sessions idle for 15 min or longer.  In every
    reachable state: expiry touches no datastore and not the daemon; sessions that are not idle leave the
    whole state unchanged; an idle session disappears together with its lock, the next Create is granted and
@@ -211,7 +232,9 @@ Definition ex_b : path := [5; 6]%N.             (* b.e   *)
 Definition ex_ops : list op :=
   [OCreate; OSet 1 ex_p (VInt 1500) false; OSet 1 ex_b (VBool true) false].
 Definition f_with (k kr : nat) (t : bool) (r : nat) (s v : bool) : faults :=
-  {| f_apply := k; f_rollback := kr; f_test := t; f_reload := r; f_startup := s; f_version := v |}.
+  {| f_apply := k; f_rollback := kr; f_test := t; f_reload := r; f_restore := false; f_startup := s; f_version := v |}.
+Definition f_down (r : nat) (s : bool) : faults :=      (* the daemon is down: the restoring reload fails too *)
+  {| f_apply := 0; f_rollback := 0; f_test := false; f_reload := r; f_restore := true; f_startup := s; f_version := false |}.
 Definition ex_mss : guard :=
   {| g_mss := Some ([1;3], ex_p, 1512%Z)%N; g_sv := 7%N; g_cv := 8%N; g_hidden := []; g_sa := 9%N |}.
 Definition st_of (var : variant) := run var ex_reg no_guard (init_state empty_store) ex_ops.
@@ -250,6 +273,39 @@ Example C13_idle_expiry_nonvacuous :
   snd (do_set Repaired ex_reg st15 1 ex_p (VInt 1) false) = RNoSession.
 Proof. vm_compute. repeat split. Qed.
 Print Assumptions C13_idle_expiry_nonvacuous.
+
+(* ---------------------------------------------------------------- what /repo HEAD violates (open findings) *)
+(* the reload fails after the daemon took the candidate and the restoring reload fails too: HEAD returns the
+   plain reload error although the daemon still runs the candidate; [Repaired] returns the distinguished error *)
+Theorem C13_restore_unreported_refuted :
+  exists reg g ops id f,
+  let st := run Head reg g (init_state empty_store) ops in
+  let '(st', r, evs) := do_commit Head reg g st id f in
+  let '(st2, r2, _) := do_commit Repaired reg g (run Repaired reg g (init_state empty_store) ops) id f in
+  r = RFrrReload /\ persisted st' = persisted st /\ frr st' <> frr st /\ frr st' <> Some (running st) /\
+  r2 = RFrrReloadU /\ frr st2 = frr st'.
+Proof.
+  exists ex_reg, no_guard, ex_ops, 1%N, (f_down 2 false). vm_compute.
+  repeat split; try discriminate.
+Qed.
+Print Assumptions C13_restore_unreported_refuted.
+
+(* a start-up whose commit fails (here: the second Apply): HEAD leaves the loaded configuration published as
+   running; with colliding subscriber groups it is published although the validation rejects it *)
+Definition ex_cfg : store := {| leaves := [(ex_p, SInt 1500); (ex_b, SBool true)]; conts := [[1]; [1; 3]; [5]]%N |}.
+Definition ex_col : store :=
+  {| leaves := [([10; 11; 7], SStr [49]); ([10; 12; 7], SStr [49])]; conts := [[10]; [10; 11]; [10; 12]] |}%N.
+Definition ex_colg : guard := {| g_mss := None; g_sv := 7%N; g_cv := 8%N; g_hidden := []; g_sa := 9%N |}.
+Theorem C13_boot_refuted :
+  (let '(st', r, _) := do_boot Head ex_reg no_guard (init_state empty_store) ex_cfg []
+                         [(ex_p, VInt 1500); (ex_b, VBool true)] (f_with 2 0 false 0 false false) in
+   r = RApplyFail /\ get_leaf (running st') ex_p = Some (SInt 1500)) /\
+  (let '(st', r, _) := do_boot Head ex_reg ex_colg (init_state empty_store) ex_col [] [] no_faults in
+   precommit_ok ex_colg ex_col = false /\ r <> ROk /\ running st' = ex_col) /\
+  (let '(st', r, _) := do_boot Repaired ex_reg ex_colg (init_state empty_store) ex_col [] [] no_faults in
+   r = RPrecommit /\ running st' = empty_store).
+Proof. vm_compute. repeat split; discriminate. Qed.
+Print Assumptions C13_boot_refuted.
 
 (* ---------------------------------------------------------------- historical witnesses (all fixed in /repo) *)
 (* before e792c74 *)
